@@ -28,14 +28,14 @@ GROUPS = {
     "C10": [("regex", ["regex.match", "regex.search", "regex.no_panic"]), ("e2e_fn", ["e2e_fn.members", "e2e_fn.multiplicity", "e2e_fn.no_panic"])],
     "C11": [("arith", ["process_index.select", "process_slice.select", "process_index.no_panic", "process_slice.no_panic"]),
             ("text_arith", ["text_arith.members", "text_arith.order", "text_arith.no_panic", "text_arith.accepts"])],
-    "C12": [("purity", ["purity.repeat", "purity.history", "purity.parsed_once", "purity.threads"]),
+    "C12": [("purity", ["purity.repeat", "purity.history", "purity.parsed_once", "purity.threads", "purity.entry_points_agree"]),
             ("text_plain", ["text_plain.api_agree"]), ("text_union", ["text_union.api_agree"]), ("text_filter", ["text_filter.api_agree"]), ("text_arith", ["text_arith.api_agree"])],
     "C14": [("ext_direct", ["extension_custom.def", "extension_custom.laws", "extension_custom.no_panic"]),
             ("e2e_ext", ["e2e_ext.members", "e2e_ext.multiplicity", "e2e_ext.order", "e2e_ext.no_panic", "e2e_ext.ok"]),
             ("text_ext", ["text_ext.members", "text_ext.order", "text_ext.no_panic", "text_ext.accepts", "text_ext.api_agree"])],
     "C15": [("e2e", ["e2e.view_independent", "e2e.second_impl.members", "e2e.second_impl.multiplicity", "e2e.second_impl.order"]), ("text_filter", ["text_filter.api_agree", "text_filter.api_view_independent"]),
             ("text_plain", ["text_plain.api_agree", "text_plain.api_view_independent"]), ("text_arith", ["text_arith.api_view_independent"]), ("text_union", ["text_union.api_view_independent"]),
-            ("cmp_struct", ["eq.structural", "lt.order"])],
+            ("cmp_struct", ["eq.structural", "lt.order"]), ("text_cmp", ["text_cmp.api_view_independent"])],
 }
 # groups that only the thorough tier runs (through-the-parser rendering of the whole end-to-end menu: 2 min single-threaded)
 THOROUGH_GROUPS = {
@@ -367,14 +367,14 @@ def run_purity_x(run, only=None):
 
 
 # ---- C08: deep nesting.  One process per probe (a stack overflow aborts the process; a run-away parse is stopped by RLIMIT_CPU).
-DEEP_PROBES = ["parens", "not_parens", "fn_nesting_valid", "fn_nesting_invalid", "nested_filters", "doc_descendant", "doc_eq", "segments"]
+DEEP_PROBES = ["parens", "not_parens", "fn_nesting_valid", "fn_nesting_invalid", "nested_filters", "doc_descendant", "doc_eq", "segments", "cmp_nesting"]
 DEEP_CPU_S = 20
 # must-hold depths (a failure is a violation) and demonstration depths of the recorded findings (a failure there is the known finding;
 # on the unchanged tree the smallest failing depths are 4096..65536 for the recursion probes on an 8 MiB stack, and 16 for the
 # invalid function nesting under a 20 s CPU limit: both sets keep a factor >= 2 from those boundaries)
-DEEP_MUST = {"default": [16, 256, 1024], "fn_nesting_invalid": [4, 8], "segments": [16, 1024, 65536]}
-DEEP_MUST_THOROUGH = {"default": [4, 64, 512], "fn_nesting_invalid": [2, 6, 10], "segments": [262144]}
-DEEP_DEMO = {"default": [65536], "fn_nesting_invalid": [24], "segments": []}
+DEEP_MUST = {"default": [16, 256, 1024], "fn_nesting_invalid": [4, 8], "segments": [16, 1024, 65536], "cmp_nesting": [8, 32, 64]}
+DEEP_MUST_THOROUGH = {"default": [4, 64, 512], "fn_nesting_invalid": [2, 6, 10], "segments": [262144], "cmp_nesting": [128]}
+DEEP_DEMO = {"default": [65536], "fn_nesting_invalid": [24], "segments": [], "cmp_nesting": []}
 
 
 def build_opt0(run):
